@@ -509,6 +509,34 @@ fn blocking_timeout() -> Out {
     Out { name: "blocking_timeout", ok: bad.is_empty(), detail: bad.join("; "), trace: tr }
 }
 
+/// C10 "failures other than a timeout are reported as themselves as soon as they occur", C17, C13, C01: blocking callers parked on a FULL mailbox
+/// with a long deadline while the actor is killed.  Each must come back promptly with Err(Send) (never Timeout, never Ok), one dead
+/// letter each, and nothing of theirs is handled.  (round 10: a try_send fast path + send_timeout mapped every late failure to Timeout)
+fn blocking_parked_then_dies() -> Out {
+    let rt = tokio::runtime::Builder::new_multi_thread().worker_threads(2).enable_all().build().unwrap();
+    let log = new_log();
+    let (r, h) = rt.block_on(async { spawn_with_mailbox_capacity::<Probe>(args(&log), 1) });
+    let mut bad: Vec<String> = Vec::new();
+    rt.block_on(async { r.tell(Msg { id: 1, sleep_ms: 700 }).await.unwrap(); tokio::time::sleep(Duration::from_millis(100)).await; r.tell(Msg { id: 2, sleep_ms: 0 }).await.unwrap(); });
+    let c0 = dl();
+    let t0 = std::time::Instant::now();
+    let (r2, r3) = (r.clone(), r.clone());
+    let ta = std::thread::spawn(move || { let a = r2.blocking_tell(Msg { id: 3, sleep_ms: 0 }, Some(Duration::from_secs(20))); (a, t0.elapsed()) });
+    let tb = std::thread::spawn(move || { let b = r3.blocking_ask(Msg { id: 4, sleep_ms: 0 }, Some(Duration::from_secs(20))); (b, t0.elapsed()) });
+    std::thread::sleep(Duration::from_millis(250));
+    r.kill().unwrap();
+    let (a, ea) = ta.join().unwrap();
+    let (b, eb) = tb.join().unwrap();
+    if !matches!(a, Err(rsactor::Error::Send { .. })) { bad.push(format!("[C10,C17,C01] blocking_tell(Some(20s)) parked on a full mailbox while the actor was killed returned {a:?} after {ea:?} (must be Err(Send): the actor stopped)")); }
+    if !matches!(b, Err(rsactor::Error::Send { .. })) { bad.push(format!("[C10,C17,C03] blocking_ask(Some(20s)) parked on a full mailbox while the actor was killed returned {b:?} after {eb:?} (must be Err(Send))")); }
+    if ea > Duration::from_secs(8) || eb > Duration::from_secs(8) { bad.push(format!("[C10,C17] the actor's death was reported only after {ea:?} / {eb:?} (deadline 20s; it died within 1s)")); }
+    if dl_enabled() && dl() != c0 + 2 { bad.push(format!("[C13,C17] two blocking sends failed on a dying actor but {} dead letters were recorded", dl() - c0)); }
+    let _ = rt.block_on(async { join(h).await });
+    let tr = trace(&log);
+    if handled(&tr).iter().any(|i| *i == 3 || *i == 4) { bad.push(format!("[C01,C17] a blocking send that reported failure was handled: {:?}", handled(&tr))); }
+    Out { name: "blocking_parked_then_dies", ok: bad.is_empty(), detail: bad.join("; "), trace: tr }
+}
+
 #[cfg(feature = "metrics")]
 async fn metrics_counts() -> Out {
     let log = new_log();
@@ -565,6 +593,7 @@ fn main() {
     if want("hook_panics") { emit(rt().block_on(hook_panics())); }
     if want("blocking_api") { emit(blocking_api()); }
     if want("blocking_timeout") { emit(blocking_timeout()); }
+    if want("blocking_parked_then_dies") { emit(blocking_parked_then_dies()); }
     #[cfg(feature = "deadlock-detection")]
     {
         std::panic::set_hook(Box::new(|_| {})); // the deliberate deadlock panics are expected
